@@ -92,7 +92,7 @@ def call(f, *a, **k):
 def twin(ctx, Model, spec, scripts, opts, a, b, a_label, b_label, case):
     """A: solve(start, end); B: loop over the reference period list."""
     n = spec.n
-    tol = opts.get('tol', 0.5)
+    tol = 0.5      # size of the scripted moves (the solver's own `tol` is an option like any other)
     A = make(Model, spec, scripts, tol)
     B = make(Model, spec, scripts, tol)
     kw = {}
@@ -159,7 +159,7 @@ def twin(ctx, Model, spec, scripts, opts, a, b, a_label, b_label, case):
 
 
 def option_set(rng):
-    o = dict(min_iter=rng.choice([0, 0, 1, 2]), max_iter=rng.choice([1, 3, 6, 6]), tol=rng.choice([0.5, 0.5, 1e-10]),
+    o = dict(min_iter=rng.choice([0, 0, 1, 2]), max_iter=rng.choice([1, 3, 6, 6]), tol=rng.choice([0.5, 0.5, 0.5, 1e-10, math.nan, math.inf, 0.0, -1.0, np.float64(0.5)]),
              failures=rng.choice(['raise', 'ignore', 'ignore']), errors=rng.choice(['raise', 'skip', 'ignore', 'replace']),
              catch_first_error=rng.choice([True, False]))
     if rng.random() < 0.2:
@@ -224,8 +224,8 @@ def run_shard(ctx):
                         scripts = random_scripts(rng, n, i, rng.choice(['warn', 'nan', 'pinf', 'exc', 'nonconv'])) if rep % 2 else random_scripts(rng, n)
                         case = dict(span_kind=spec.kind, n=n, period=i, label=repr(lab), opts=opts, scripts={str(k): v for k, v in scripts.items()})
                         ctx.evaluation(case, nontrivial=True, sample=case)
-                        A = make(Model, spec, scripts, opts.get('tol', 0.5))
-                        B = make(Model, spec, scripts, opts.get('tol', 0.5))
+                        A = make(Model, spec, scripts, 0.5)
+                        B = make(Model, spec, scripts, 0.5)
                         ra = call(A.solve_period, lab, **opts)
                         rb = call(B.solve_t, i, **opts)
                         ctx.count('solve_period_twins')
